@@ -23,7 +23,7 @@ CHECKS = {
 }
 
 # properties whose checks are registered (theorems proved, check green on the unchanged tree)
-READY = {'C16', 'C12', 'C06', 'C13', 'C14', 'C20', 'C08', 'C03'}
+READY = {'C16', 'C12', 'C06', 'C13', 'C14', 'C20', 'C08', 'C03', 'C01', 'C19', 'C05', 'C07', 'C15', 'C17'}
 
 CHECKS['C12'] = (
     'Lean 4 theorems: round trip parse(encodeOps ops) = annotate ops for every well-formed operation sequence (any length, nesting depth, '
@@ -90,6 +90,58 @@ CHECKS['C03'] = (
     'buildSysV/buildGnu are not proved to satisfy WF (the driver evaluates WF on every generated table); syminfo iteration entry-level only; linked-section type checks and '
     'malformed inputs correspondence-only; names are compared as UTF-8 bytes (invalid UTF-8 outside the theorems).',
     'DESIGN.md §6 C03')
+
+CHECKS['C01'] = (
+    'Lean 4 theorems over abstract ELF descriptions (class x byte order x machine class x OS ABI x core; tables and bodies placed anywhere; padded entry sizes; '
+    'extended-numbering escapes): opening, counts, every section by index (kind, name, every header field) incl. the constructor guards of every section kind, '
+    'enumeration, segments (incl. PT_DYNAMIC lazy section search), name lookups, named/unnamed codes, the assembler produces a layout; struct bundles and the '
+    'e_machine partition regenerated and kernel-checked against the gABI Spec; correspondence on Lean-assembled and mutated images',
+    'Proof: for every well-formed description and every byte string carrying it (Layout predicate), the model of elffile.py reports exactly the description\'s '
+    'observation; the model is tied by regeneration (structs, tables, machine classes) and by differential runs against the real ELFFile.',
+    'Well-formedness (Spec.ElfDesc.wf) excludes SHF_COMPRESSED sections (C02), non-UTF-8 names, and files without sections whose e_shstrndx != 0 (gABI: SHN_UNDEF). '
+    'Images with >= 0xff00 sections / >= 0xffff segments are compared with the Spec observation only (thorough tier); the escape logic is exercised against the model with forced escapes on small tables.',
+    'DESIGN.md §6 C01')
+CHECKS['C19'] = (
+    'Lean 4 theorems quantified over ALL byte strings: openElf succeeds or fails with ELFError/ELFParseError only (the model raises typeError/keyError/overflowError '
+    'where Python would); successful section/segment indices are bounded by the file length (40i+40 / 32i+32 <= len) so enumeration stops after at most len/40+1 steps '
+    'whatever count a corrupt header claims; link recursion never exhausts its fuel; correspondence of the constructor on fault-injected inputs; a termination battery '
+    'run under RLIMIT_AS and a wall-clock limit with directed count-amplification faults',
+    'Proof for the constructor closure and the section/segment enumeration bounds; the runtime half (CPython time and memory) is partial by nature and covered by the '
+    'fault-injection battery (supporting evidence and failing-input search, not the proof).',
+    'Partial by nature: the theorems bound model iterations, not CPython time/allocation. Dynamic-tag, note, hash and symbol-count loops are covered by the battery and by '
+    'the fuel/termination theorems of C09/C14/C03 where proved; the version-record walk is not in the property\'s battery (DESIGN §10.1).',
+    'DESIGN.md §6 C19')
+CHECKS['C05'] = (
+    'Lean 4 theorems: decoded rows = the DWARF §6.2 state machine run over the instruction list (induction generalising registers, file list, fuel) for versions 2-5, all '
+    'header parameters, every standard/extended/special/unknown opcode, padded LEB128; decoding consumes exactly the extent; header round trip for versions <= 4 (v5 closed '
+    'instances); cache coherence; regenerated header struct and DW_LNS/DW_LNE constants tied to the Spec; correspondence on spec-encoded and mutated programs',
+    'Proof: rows equal the standard machine\'s for every well-formed program; the program attached to a unit is the one DW_AT_stmt_list designates.',
+    'v5 header round trip (FormattedEntry, string resolution, legacy tables) is correspondence + two closed kernel-checked instances; header_length is not honoured by the code '
+    '(program_start = tell()), so the encoder sets it exactly; DW_FORM_strx* in line tables raises NotImplementedError (split DWARF, outside WF).',
+    'DESIGN.md §6 C05')
+CHECKS['C07'] = (
+    'Lean 4 theorems: v4 and v5 list round trips for every DW_LLE/DW_RLE kind (padded ULEB128, any expression length), translation through the address table, offset-table '
+    'index lookup, unit-block and range-list enumeration exact, attribute classification decided for all (name, version, form); regenerated entry/header structs and '
+    'LLE/RLE tables tied to the Spec; correspondence incl. gaps, view pairs, every list-capable form',
+    'Proof: lists fetched by offset, attribute or index are exactly the encoded entries, translated as the standard prescribes; enumeration of range lists and unit blocks is exact.',
+    'iter_location_lists by DIE (gap skipping, view pairs) is correspondence-only (every list it fetches is covered by the round-trip theorems); LocationListsPair/RangeListsPair wrappers not modelled; '
+    'the model receives the (name, form, raw value) triples the harness assembled into .debug_info (DIE decoding is C04).',
+    'DESIGN.md §6 C07')
+CHECKS['C15'] = (
+    'Lean 4 theorems under a decidable layout predicate on the whole file (arbitrary, padded, interleaved, zero displacements): iter_versions with every aux chain = the '
+    'encoded entries and names; prefix when sh_info declares fewer; get_version = first carrier or none; has_indexes; versym rows paired with symbol names for any entry size; '
+    'five record structs + Elf_Sym tied to the Spec; correspondence on assembled and damaged images',
+    'Proof: version sections yield exactly their encoded entries and auxiliary chains; index resolution returns the entry carrying the index or nothing.',
+    'The assembler is not proved to satisfy the layout predicate (the driver evaluates it on every generated file); ELF container glue and malformed input are correspondence-only.',
+    'DESIGN.md §6 C15')
+CHECKS['C17'] = (
+    'Lean 4 kernel evaluation (decide +kernel over Nat-keyed tables, one theorem per regenerated table + a catch-all over the table index): every (name, value) the library '
+    'exports whose name a vendored registry (glibc elf.h, LLVM ELF.h/ELFRelocs/DynamicTags/Dwarf.def, aaelf64 for two names) defines has a registry value; the decode direction '
+    'reports standard names (explicit 8-name legacy-alias exception list); reverse maps consistent; direct comparison of the live Python tables with the registry TSVs',
+    'Proof by exhaustive kernel check of the tables regenerated from /repo on every run against the vendored registries.',
+    'Trusted: the one-time registry extraction (registry/extract_registry.py, values printed by this image\'s gcc/clang), the name-key function, registry decisions (count pseudo-constants excluded; '
+    'either value accepted where glibc and LLVM disagree). Names no registry knows are not judged (counted as unmatched).',
+    'DESIGN.md §6 C17')
 
 NOT_YET = {
 }
